@@ -74,12 +74,15 @@ def scan_header(h):
             probs.append(("observer-array-not-declared", name))
         elif used and max(used) >= sizes[name]:
             probs.append(("observer-array-too-small", f"{name}[{sizes[name]}] index {max(used)}"))
-    uses_minmax = re.search(r"\bstd::(min|max)\(", h) is not None
-    if uses_minmax != ("#include <algorithm>" in h):
-        probs.append(("include:algorithm", "used" if uses_minmax else "included but unused"))
+    # a facility that is used must be included (an unused include is not a violation)
+    uses_minmax = re.search(r"\bstd::(min|max)\s*(<[^>()]*>)?\(", h) is not None
+    if uses_minmax and "#include <algorithm>" not in h:
+        probs.append(("include:algorithm", "used"))
+    if re.search(r"\bstd::fmod\(", h) is not None and "#include <cmath>" not in h:
+        probs.append(("include:cmath", "used"))
     uses_dbg = re.search(r"\b(qDebug|qInfo|qWarning|qCritical)\(\)", h) is not None
-    if uses_dbg != ("#include <QtDebug>" in h):
-        probs.append(("include:QtDebug", "used" if uses_dbg else "included but unused"))
+    if uses_dbg and "#include <QtDebug>" not in h:
+        probs.append(("include:QtDebug", "used"))
     return probs, len(enumerators)
 
 
@@ -445,26 +448,124 @@ def unspecified_but_accepted(shard, nshards, payload):
         g = r["modes"]["generate"]
         if vc.accepted(g, r.get("has_syntax_error")):
             todo.append((k, text, src, g))
-    for k, text, src, g in todo:
-        err = syntax_check(g["ui"], g["header"], f"U{k}")
-        t.inc("unspecified_accepted_compiled")
-        t.distinct.add(("uns", text))
-        if err:
-            t.violation("compile:accepted-but-does-not-compile:" + classify_compile_error(err),
-                        {"id": f"unspec/{k}", "expr": text, "source": src, "error": err[-500:]})
+    progs_ = [harness.Program(f"U{k}", g["ui"], g["header"],
+                              "    @SETUP@\n    UiSupport::@PID@ sup(root, ui); (void)sup;",
+                              {"k": k, "text": text, "source": src}) for k, text, src, g in todo]
+    for i in range(0, len(progs_), 30):
+        chunk = progs_[i:i + 30]
+        errs = harness.compile_batch(chunk, tag="c16u")
+        for p in chunk:
+            t.inc("unspecified_accepted_compiled")
+            t.distinct.add(("uns", p.meta["text"]))
+            err = errs[p.pid]
+            if err:
+                t.violation("compile:accepted-but-does-not-compile:" + classify_compile_error(err),
+                            {"id": f"unspec/{p.meta['k']}", "expr": p.meta["text"], "source": p.meta["source"], "error": err[-500:]})
+    return t
+
+
+# --------------------------------------------------------------------------- API sweep
+
+def api_sweep_docs():
+    """Every NOTIFY property (read in a binding, so that its change signal is connected) and every
+    signal (as a callback) of every widget class, QAction and the layouts, as the type
+    information declares them: the way a signal is named in the header (QOverload<...>::of(&C::s))
+    must compile against declarations made from the same type information."""
+    from checks import c04
+    types = qtmock.load_types()
+    classes = c04.sweep_classes() + ["QAction", "QVBoxLayout", "QGridLayout", "QFormLayout", "QButtonGroup", "VObj"]
+    head = "import qmluic.QtWidgets\nQWidget {\n    id: root\n"
+    for cls in classes:
+        c = types.get(cls)
+        if not c:
+            continue
+
+        def place(body_src, body_dst=None):
+            objs = f"    {cls} {{ id: src{body_src} }}\n"
+            if body_dst is not None:
+                objs += f"    {cls} {{ id: dst; {body_dst} }}\n"
+            if cls.endswith("Layout"):
+                objs = "".join(f"    QWidget {{ {l.strip()} }}\n" for l in objs.splitlines())
+            return head + objs
+        for p_ in c.get("properties", []):
+            if not (p_.get("notify") and p_.get("read")):
+                continue
+            n = p_["name"]
+            if p_.get("write"):
+                yield (f"api/{cls}.{n}/copy", place("", f"{n}: src.{n}") + "}\n")
+            yield (f"api/{cls}.{n}/compare", place("") + f"    VObj {{ id: t; rb: src.{n} == src.{n} }}\n}}\n")
+        seen = set()
+        for sg in c.get("signals", []):
+            if sg["name"] in seen:
+                continue
+            seen.add(sg["name"])
+            on = "on" + sg["name"][0].upper() + sg["name"][1:]
+            yield (f"api/{cls}::{sg['name']}/callback", place(f"; {on}: {{ }}") + "}\n")
+
+
+def api_sweep(shard, nshards, payload):
+    vd = vc.worker_vdrive()
+    t = vc.Tally()
+    progs_ = []
+    for k, (cid, src) in enumerate(api_sweep_docs()):
+        if k % nshards != shard:
+            continue
+        r = vd.job({"id": cid, "source": src, "modes": ["generate"], "type_name": f"A{k}"})
+        if "modes" not in r or r["modes"]["generate"].get("status") == "panic":
+            t.lost.append({"id": cid})
+            continue
+        g = r["modes"]["generate"]
+        t.inc("api_sweep_documents")
+        if not vc.accepted(g, r.get("has_syntax_error")):
+            t.inc("api_sweep_rejected")       # ambiguous overloads, incomparable gadgets, ...: nothing to compile
+            continue
+        if "QObject::connect(" not in g["header"]:
+            t.inc("api_sweep_without_connection")
+            continue
+        progs_.append(harness.Program(f"A{k}", g["ui"], g["header"], "    @SETUP@\n    UiSupport::@PID@ sup(root, ui); (void)sup;",
+                                      {"id": cid, "source": src}))
+    for i in range(0, len(progs_), 25):
+        chunk = progs_[i:i + 25]
+        errs = harness.compile_batch(chunk, tag="c16a")
+        for p in chunk:
+            t.inc("api_sweep_compiled")
+            t.distinct.add(p.meta["id"])
+            if errs[p.pid]:
+                t.violation("compile:api-sweep:" + classify_compile_error(errs[p.pid]),
+                            {"id": p.meta["id"], "source": p.meta["source"], "error": errs[p.pid][-700:]})
     return t
 
 
 def main(tier, t0):
     vc.ensure_vdrive()
     qtmock.load_types()
+    # the sanitizer builds are few but slow: they run beside the sharded phases
+    import multiprocessing
+    import traceback
+    ctx = multiprocessing.get_context("fork")
+    q = ctx.Queue()
+
+    def _exec():
+        try:
+            te = vc.Tally()
+            exec_programs(tier, te)
+            q.put(("ok", te))
+        except BaseException:
+            q.put(("err", traceback.format_exc()))
+    pr = ctx.Process(target=_exec)
+    pr.start()
     tally = vc.merge_tallies(vc.run_sharded(shard_text, {"tier": tier}))
     tally.merge(vc.merge_tallies(vc.run_sharded(unspecified_but_accepted, {"tier": tier})))
-    exec_programs(tier, tally)
+    tally.merge(vc.merge_tallies(vc.run_sharded(api_sweep, {"tier": tier})))
+    kind, te = q.get(timeout=3000)
+    pr.join()
+    if kind != "ok":
+        raise vc.MachineryError("executed part failed:\n" + te)
+    tally.merge(te)
     c = tally.counts
     cov = {
         "evaluations": c.get("headers_compiled", 0) + c.get("executed_programs", 0) + c.get("string_literals", 0) +
-        c.get("unspecified_accepted_compiled", 0),
+        c.get("unspecified_accepted_compiled", 0) + c.get("api_sweep_compiled", 0),
         "distinct_nontrivial": len(tally.distinct),
         "rule": "distinct documents whose header was compiled alone against the generated API model, distinct "
                 "executed sizing/collision programs, distinct (context, string) literal cases",
@@ -475,6 +576,8 @@ def main(tier, t0):
         "executed_under_sanitizers": c.get("executed_programs", 0),
         "string_literals_checked": c.get("string_literals", 0),
         "unspecified_typing_cells_accepted_and_compiled": c.get("unspecified_accepted_compiled", 0),
+        "api_sweep": {"documents": c.get("api_sweep_documents", 0), "compiled": c.get("api_sweep_compiled", 0),
+                      "rejected_by_qmluic": c.get("api_sweep_rejected", 0), "without_connection": c.get("api_sweep_without_connection", 0)},
     }
     assumptions = [
         "API model generated from `vdrive types` (bundled metatypes + vtypes.json after metatype_tweak); enum / "
